@@ -86,6 +86,10 @@ pub trait QuState
     /// Reset all qubits in this experiment, returning the state to |00...0⟩
     /// for all runs.
     fn reset_all(&mut self);
+
+    /// Verification hook: copy of the internal representation
+    #[cfg(feature = "verif")]
+    fn verif_snapshot(&self) -> crate::verif::Snapshot { crate::verif::Snapshot::Opaque }
 }
 
 /// Collect which states to apply conditional gate to into ranges
